@@ -77,11 +77,23 @@ def gen(rng):
                 pre = []
                 if L and L[-1].startswith("sp = "):
                     pre = [L.pop()]
-                wrap = rng.choice(["try", "for", "ifelse"])
+                wrap = rng.choice(["try", "for", "ifelse", "ifboth", "ifboth"])
                 if wrap == "try":
                     L += pre + ["try:", "    " + call, "except:", "    pass"]
                 elif wrap == "for":
                     L += pre + ["for once in range(1):", "    " + call]
+                elif wrap == "ifboth":
+                    # every arm of one chain starts an animation of its own (only one arm runs): each call site has its own state
+                    other_style = rng.choice([s2 for s2 in STYLES if s2 != style])
+                    dead = f"{nm[li]}.animate(\"{other_style}\", {r}, \"never shown\", speed_ms=0, loop=True)"
+                    dead2 = f"{nm[li]}.animate(\"{rng.choice(STYLES)}\", {r}, \"nor this\", speed_ms=1, loop=True)"
+                    form2 = rng.choice([0, 1, 2])
+                    if form2 == 0:
+                        L += pre + ["if 2 > 3:", "    " + dead, "else:", "    " + call]
+                    elif form2 == 1:
+                        L += pre + ["if 3 > 2:", "    " + call, "else:", "    " + dead]
+                    else:
+                        L += pre + ["if 2 > 3:", "    " + dead, "elif 3 > 2:", "    " + call, "else:", "    " + dead2]
                 else:
                     L += pre + ["if 2 > 3:", "    pass", "else:", "    " + call]
             L.append(f"mon.write(\"@start\")")
